@@ -38,3 +38,19 @@ Proof. exact dec_enc_ds. Qed.
 Theorem C08_code_points_match_registry :
   registry_agrees int_enum_members dns_registry = true /\ registry_covers int_enum_members dns_registry = true.
 Proof. exact dns_code_points. Qed.
+
+(* ECDSA DNSKEY (RFC 6605 4): the key is x | y in 2 x 32 octets for algorithm 13 and 2 x 48 octets for algorithm 14 whatever the
+   coordinates (leading zero octets included), and decodes to the same point *)
+Theorem C08_ecdsa_key_fixed_width : forall alg x y k, enc_ecdsa_key alg x y = Some k ->
+  dec_ecdsa_key alg k = Some (x, y) /\ (alg = 13 /\ zlen k = 64 \/ alg = 14 /\ zlen k = 96).
+Proof. exact dec_enc_ecdsa_key. Qed.
+
+(* EdDSA DNSKEY (RFC 8080 3): 32 octets for algorithm 15, 57 for algorithm 16, taken verbatim *)
+Theorem C08_eddsa_key_verbatim : forall alg k k', enc_eddsa_key alg k = Some k' ->
+  k' = k /\ (alg = 15 /\ zlen k = 32 \/ alg = 16 /\ zlen k = 57).
+Proof. exact enc_eddsa_key_verbatim. Qed.
+
+(* the DNSKEY RDATA header reads back *)
+Theorem C08_dnskey_header : forall flags alg key, 0 <= flags < 65536 -> 0 <= alg < 256 ->
+  dec_dnskey (enc_dnskey flags alg key) = Some (flags, 3, alg, key).
+Proof. exact dec_enc_dnskey. Qed.
